@@ -126,6 +126,7 @@ Proof.
   - apply (w_cq W).
   - apply (w_cd W).
   - apply (w_cf W).
+  - intros t0 fr c Hf. apply Hh in Hf. apply (w_cw W t0 fr c Hf).
 Qed.
 
 (* an update of fields the invariant does not read, or of the held locks / priority of a task
@@ -169,6 +170,7 @@ Proof.
   - apply (w_cq W).
   - apply (w_cd W).
   - apply (w_cf W).
+  - intros t0 fr c Hf. apply Hh in Hf. apply (w_cw W t0 fr c Hf).
 Qed.
 
 (* ------------------------------------------------------------ leaving the queue *)
@@ -258,6 +260,8 @@ Proof.
   - apply (w_cq W).
   - apply (w_cd W).
   - intros c g H. destruct (w_cf W c g H) as (A & B & C). split; auto. split; auto.
+    unfold s', setl. cbn. now rewrite set_nth_length.
+  - intros t0 fr c Hf Ec. pose proof (w_cw W t0 fr c (Hh _ _ Hf) Ec) as Hk. unfold cok in *.
     unfold s', setl. cbn. now rewrite set_nth_length.
 Qed.
 
@@ -359,6 +363,12 @@ Proof.
   - apply (w_cd W).
   - intros c g H. destruct (w_cf W c g H) as (A & B & C). split; auto. split; auto.
     unfold s', setl. cbn. now rewrite set_nth_length.
+  - intros t0 fr c Hf Ec.
+    assert (Hf0 : hasfr s (t, P) t0 fr).
+    { destruct Hf as [Hf|[E Hf]]; [now left|right]. simpl in E, Hf. split; auto. simpl.
+      destruct Hf as [Hf|[Hf|Hf]]; auto; subst fr; discriminate. }
+    pose proof (w_cw W t0 fr c Hf0 Ec) as Hk. unfold cok in *.
+    unfold s', setl. cbn. now rewrite set_nth_length.
 Qed.
 
 (* ------------------------------------------------------------ release *)
@@ -459,6 +469,8 @@ Proof.
   - apply (w_cq W).
   - apply (w_cd W).
   - intros c g H. destruct (w_cf W c g H) as (A & B & C). split; auto. split; auto.
+    unfold s', setl. cbn. now rewrite set_nth_length.
+  - intros t0 fr c Hf Ec. pose proof (w_cw W t0 fr c Hf Ec) as Hck. unfold cok in *.
     unfold s', setl. cbn. now rewrite set_nth_length.
 Qed.
 
